@@ -5,7 +5,7 @@ from .. import land, seq
 
 LEVEL = 'exploration'
 ENGINE = 'SEQ'
-TECHNIQUE = 'bounded exhaustive enumeration of operation histories (create / duplicate / delete / delete unknown / worker in context / worker in unknown context / use worker) over 2-3 context ids on a real server, and over a menu of id values (falsy ones, numbers, tuples) on servers of their own, compared step by step with a dictionary model of the server context table'
+TECHNIQUE = 'bounded exhaustive enumeration of operation histories (create / duplicate / delete / delete unknown / worker in context / worker in unknown context / use worker / stale handle of a deleted context) over 2-3 context ids on a real server, and over a menu of id values (falsy ones, numbers, tuples) on servers of their own, compared step by step with a dictionary model of the server context table'
 LEVEL_TEXT = ('every history up to the full depth, then extended on new abstract states of the model (registered ids x live workers), is executed against a real server process with real contexts and persistent remote workers; oracle: ValueError exactly on duplicates with the first context intact, workers compute the context target with the context defaults, delete ends its workers and frees the id, unknown ids never kill the server nor hang the client, a probe round trip after every history')
 LEVEL_NOTE = 'context ids are made unique per history so that one server can serve many histories (raw id values get a fresh server per history); timing inside an operation is whatever the OS does'
 
